@@ -110,3 +110,9 @@ Definition q_push_inner (inner : qstate) (props : list (gnd * bnd)) : qstate * Q
    variables the operand's table *)
 Definition nested_rows (q : qobj) (inner : qstate) : list (gnd * bnd) :=
   if fully_quantified q then map (fun e => (fst e, snd (snd e))) (qneu inner) else qtab inner.
+
+(* reset_bounds() of a quantifier (after the fix): every per-grounding neuron goes back to the world default and the table is
+   restacked from the neurons; a fully quantified formula's single neuron goes back to its world default *)
+Definition q_reset (q : qobj) (s : qstate) : qstate :=
+  let neu := map (fun e => (fst e, (fst (snd e), qworld q))) (qneu s) in
+  QS neu (if fully_quantified q then qtab s else map (fun e => (fst e, qworld q)) neu).
